@@ -149,7 +149,7 @@ def main():
         key = ("loss" if nl else "clean") + ":" + end
         outcome[key] = outcome.get(key, 0) + 1
     cov = {"states": mc.distinct, "transitions": mc.generated,
-           "traces_validated_against_impl": val.traces, "samples": [traces[1]["ev"][:6]],
+           "traces_validated_against_impl": val.traces, "samples": [traces[min(1, len(traces) - 1)]["ev"][:6]],
            "trace_events": val.events, "cases": kinds, "outcomes": outcome, "rejected": len(val.rejects)}
     return v.finish("model_checking", cov, [
         "reference block server simulator is untrusted: its initiate response, acknowledges and end decision are judged by SdoBlock operators",
